@@ -190,10 +190,11 @@ let state_letter = function VOk -> "O" | VDeleted -> "D" | VUpdated -> "U" | VNe
 
 let notices : (int, string list) Hashtbl.t = Hashtbl.create 8
 let starts_with_s (s : string) (p : string) = String.length s >= String.length p && String.sub s 0 (String.length p) = p
+let closed_sessions : (int, unit) Hashtbl.t = Hashtbl.create 8
 let node_inboxes (n : node ref) : string =
   let parts = ref [] in
   List.iteri (fun i s ->
-    if s.s_inbox <> [] then begin
+    if s.s_inbox <> [] && not (Hashtbl.mem closed_sessions i) then begin
       List.iter (fun m -> let m = string_of_cl m in
         if starts_with_s m "resolve " then
           Hashtbl.replace notices i ((try Hashtbl.find notices i with Not_found -> []) @ [m])) s.s_inbox;
@@ -238,7 +239,7 @@ let run_node (path : string) =
     Printf.printf "C %s\n" c.id;
     let role = role_of_tok (match c.header with r :: _ -> r | [] -> "P") in
     let n = ref (init_node (cl_of_string "nun") (cl_of_string "pwd") (cl_of_string "n0:3014") (n_of_int 1000) role clock0) in
-    Hashtbl.reset notices;
+    Hashtbl.reset notices; Hashtbl.reset closed_sessions;
     List.iter (fun op ->
       let res = match op with
         | ["rsv"; sid; idx; value] ->
@@ -266,7 +267,7 @@ let run_node (path : string) =
         | ["cmd"; sid; line] ->
           let (n', r) = step !n (nat_of_int (int_of_string sid)) (cl_of_string (unhex line)) in
           n := n'; resp_str r
-        | ["disc"; sid] -> n := disconnect !n (nat_of_int (int_of_string sid)); "Left"
+        | ["disc"; sid] -> n := disconnect !n (nat_of_int (int_of_string sid)); Hashtbl.replace closed_sessions (int_of_string sid) (); "Left"
         | ["flush"] -> n := flush_snapshots !n; "Flushed"
         | _ -> failwith "bad node op" in
       let inb = node_inboxes n in
@@ -294,6 +295,7 @@ let run_disk (path : string) =
     let x = ref { dn_node = init_node (cl_of_string "nun") (cl_of_string "pwd") (cl_of_string "n0:3014") (n_of_int 1000) role clock0;
                   dn_files = [] } in
     let dead = ref false in
+    Hashtbl.reset closed_sessions;
     List.iter (fun op ->
       let n = ref !x.dn_node in
       let setn () = x := { !x with dn_node = !n } in
@@ -304,14 +306,14 @@ let run_disk (path : string) =
         | ["cmd"; sid; line] ->
           let (n', r) = step !n (nat_of_int (int_of_string sid)) (cl_of_string (unhex line)) in
           n := n'; setn (); resp_str r
-        | ["disc"; sid] -> n := disconnect !n (nat_of_int (int_of_string sid)); setn (); "Left"
+        | ["disc"; sid] -> n := disconnect !n (nat_of_int (int_of_string sid)); setn (); Hashtbl.replace closed_sessions (int_of_string sid) (); "Left"
         | "flush" :: orders ->
           let orders = List.map (fun o -> if o = "-" then [] else
                                     List.map (fun h -> cl_of_string (unhex h)) (String.split_on_char ',' o)) orders in
           x := dflush !x orders; n := !x.dn_node; "Flushed"
         | "restart" :: lo ->
           (match drestart !x (List.map (fun h -> cl_of_string (unhex h)) lo) with
-           | RNode x' -> x := x'; n := x'.dn_node; "Restarted"
+           | RNode x' -> x := x'; n := x'.dn_node; Hashtbl.reset closed_sessions; "Restarted"
            | RStartPanic -> dead := true; "PANIC")
         | _ -> failwith "bad disk op" in
       let inb = node_inboxes n in
@@ -321,8 +323,93 @@ let run_disk (path : string) =
       Printf.printf "D %s %s\n" (node_dump true !x.dn_node) (files_digest !x)) c.ops;
     print_string "E\n") (read_cases path)
 
+(* ---------- cluster ---------- *)
+let cluster_dump (c : cluster) : string =
+  let b = Buffer.create 512 in
+  List.iter (fun (name, x) ->
+    let n = x.cn_node in
+    let name = string_of_cl name in
+    Buffer.add_string b (Printf.sprintf " node=%s role=%s%s" name (role_letter n.n_role) (if x.cn_dead then " DEAD" else ""));
+    let ms = List.map (fun (mn, (r, _)) ->
+        let mn = string_of_cl mn in
+        let conn = List.exists (fun l -> string_of_cl l.l_from = name && string_of_cl l.l_to = mn) c.c_links in
+        Printf.sprintf "%s:%s:%s" mn (role_name r) (if conn then "c" else "-")) n.n_members in
+    Buffer.add_string b (Printf.sprintf " members=[%s]" (String.concat "," (List.sort compare ms)));
+    Buffer.add_string b (Printf.sprintf " pending=%d" (List.length n.n_pending));
+    let dbs = List.sort (fun (a, _) (b, _) -> compare a b) (List.map (fun (nm, d) -> (string_of_cl nm, d)) n.n_dbs) in
+    List.iter (fun (nm, d) ->
+      Buffer.add_string b (Printf.sprintf " db=%s strat=%s keys=[" (esc nm) (string_of_cl (strat_to_str d.d_strat)));
+      let ks = List.sort (fun (a, _) (b, _) -> compare a b) (List.map (fun (k, v) -> (string_of_cl k, v)) d.d_map) in
+      Buffer.add_string b (String.concat "," (List.map (fun (k, v) ->
+        Printf.sprintf "%s=%s@%s/%s" (esc k) (sesc v.v_val) (z_str v.v_ver) (if v.v_st = VDeleted then "D" else "L")) ks));
+      Buffer.add_string b "]") dbs) c.c_nodes;
+  let ls = List.sort compare (List.filter_map (fun l ->
+      if l.l_open then Some (string_of_cl l.l_from ^ ">" ^ string_of_cl l.l_to) else None) c.c_links) in
+  Buffer.add_string b (Printf.sprintf " links=[%s]" (String.concat "," ls));
+  Buffer.contents b
+
+let find_link (c : cluster) (from : string) (to_ : string) : int option =
+  let rec go i = function
+    | [] -> None
+    | l :: r -> if l.l_open && string_of_cl l.l_from = from && string_of_cl l.l_to = to_ then Some i else go (i + 1) r in
+  go 0 c.c_links
+
+let run_cluster (path : string) =
+  List.iter (fun cs ->
+    Printf.printf "C %s\n" cs.id;
+    let nodes = List.map (fun h ->
+        match String.split_on_char '/' h with
+        | [name; r; pid] -> (cl_of_string name, init_cnode (cl_of_string "nun") (cl_of_string "pwd") (cl_of_string name) (n_of_dec pid) (role_of_tok r) clock0)
+        | _ -> failwith "bad cluster header") cs.header in
+    (* give every node its own clock range so that op ids never collide across nodes *)
+    let nodes = List.mapi (fun i (nm, x) ->
+        (nm, { x with cn_node = n_set_clock x.cn_node (n_of_dec (Printf.sprintf "1%d00000000000000000" (i + 1))) })) nodes in
+    let c = ref { c_nodes = nodes; c_links = []; c_cross = N0 } in
+    List.iter (fun op ->
+      let before = !c.c_cross in
+      let res = match op with
+        | ["conn"; node] -> let (c', i) = client_conn !c (cl_of_string node) in c := c'; Printf.sprintf "Conn %d" (int_of_nat i)
+        | ["cmd"; node; sid; line] ->
+          let (c', r) = client_cmd !c (cl_of_string node) (nat_of_int (int_of_string sid)) (cl_of_string (unhex line)) in
+          c := c'; resp_str r
+        | ["addsec"; node; nw] -> c := add_sec !c (cl_of_string node) (cl_of_string nw); "Queued"
+        | ["pollsup"; node] -> c := poll_sup !c (cl_of_string node); "Polled"
+        | ["pollrepl"; node] -> c := poll_repl_c !c (cl_of_string node); "Polled"
+        | ["deliver"; f; t] ->
+          (match find_link !c f t with
+           | None -> "NoLink"
+           | Some i -> (match deliver !c (nat_of_int i) with Some c' -> c := c'; "Delivered" | None -> "Nothing"))
+        | ["reply"; t; f] ->
+          (match find_link !c f t with
+           | None -> "NoLink"
+           | Some i -> (match reply !c (nat_of_int i) with Some c' -> c := c'; "Replied" | None -> "Nothing"))
+        | ["settle"] ->
+          let (c', ok) = settle (nat_of_int 200) !c in c := c'; if ok then "Settled" else "NotSettled 201"
+        | ["flush"; node] ->
+          (match get_cn !c (cl_of_string node) with
+           | Some x -> c := put_cn !c (cl_of_string node) (cn_set_node x (flush_snapshots x.cn_node)); "Flushed"
+           | None -> "Flushed")
+        | _ -> failwith "bad cluster op" in
+      (* client inboxes *)
+      let parts = ref [] in
+      c := { !c with c_nodes = List.map (fun (nm, x) ->
+          let n = ref x.cn_node in
+          List.iteri (fun ci sid ->
+            let s = get_sess !n sid in
+            if s.s_inbox <> [] then begin
+              parts := Printf.sprintf "%s/%d:[%s]" (string_of_cl nm) ci (String.concat "|" (List.map sesc s.s_inbox)) :: !parts;
+              n := fst (drain !n sid)
+            end) x.cn_clients;
+          (nm, { x with cn_node = !n })) !c.c_nodes };
+      let inb = if !parts = [] then "-" else String.concat ";" (List.rev !parts) in
+      let delta = BigZ.sub (z_of_n !c.c_cross) (z_of_n before) in
+      Printf.printf "%s | %s | x=%s\n" res inb (BigZ.to_string delta);
+      Printf.printf "D%s\n" (cluster_dump !c)) cs.ops;
+    print_string "E\n") (read_cases path)
+
 let () =
   match Array.to_list Sys.argv with
+  | [_; "cluster"; path] -> run_cluster path
   | [_; "disk"; path] -> run_disk path
   | [_; "node"; path] -> run_node path
   | [_; "oplog"; path] -> run_oplog path
